@@ -5,5 +5,6 @@ CONSTANTS
   N = 3
   Types = {1, 2}
   KS = {1, 2}
+  AddOrder = "lib"
 CHECK_DEADLOCK FALSE
 INVARIANT TornRemReadable
